@@ -6,9 +6,9 @@
 # without it, and then runs the quick check(s) against the patched scratch tree.
 set -u
 ID="$1"; K="$2"; shift 2
-SRC=/tmp/seedwork/$ID/out
+SRC="${SEED_SRC:-/tmp/seedwork/$ID/out}"
 ROUND="${ROUND:-}"
-if [ -n "$ROUND" ]; then DST=/verif/seeded/$ID-$ROUND-$K; else DST=/verif/seeded/$ID-$K; fi
+if [ -n "${SEED_NAME:-}" ]; then DST=/verif/seeded/$SEED_NAME; elif [ -n "$ROUND" ]; then DST=/verif/seeded/$ID-$ROUND-$K; else DST=/verif/seeded/$ID-$K; fi
 mkdir -p "$DST"
 if [ -f "$SRC/patch_$K.diff" ]; then
   cp "$SRC/patch_$K.diff" "$DST/patch.diff"; cp "$SRC/demo_$K.rs" "$DST/demo.rs"; cp "$SRC/meta_$K.json" "$DST/meta.agent.json"
